@@ -20,7 +20,7 @@ import (
 // path prefix wins; no match yields no site; and none of this depends on the insertion order.
 func c01R6(h H) {
 	r := h.r
-	r.Rule("R6", "routing table: for every set of up to three sites over the host patterns {a.b.c, *.b.c, *.*.c, *.*.*, catch-all, *.c, b.c} x path prefixes {/, /x, /xy}, inserted in every order (E10: labels and path bytes are opaque symbols, maps and slices are modelled), vhostTrie.Match for host A.B.C (other letter case) and paths /, /x, /xy, /xyz, /z returns the site of the most specific matching host pattern with the longest matching path prefix, or no site — independent of insertion order", 1)
+	r.Rule("R6", "routing table: for every set of up to three sites (all pairs over the universe, all triples over the matching patterns x {/, /xy}; thorough tier: all triples over the universe and all sets of four over the matching patterns) over the host patterns {a.b.c, *.b.c, *.*.c, *.*.*, catch-all, *.c, b.c} x path prefixes {/, /x, /xy}, inserted in every order (E10: labels and path bytes are opaque symbols, maps and slices are modelled), vhostTrie.Match for host A.B.C (other letter case) and paths /, /x, /xy, /xyz, /z returns the site of the most specific matching host pattern with the longest matching path prefix, or no site — independent of insertion order", 1)
 	ins := h.fn("R6", hs, "(*vhostTrie).Insert")
 	match := h.fn("R6", hs, "(*vhostTrie).Match")
 	mk := h.fn("R6", hs, "newVHostTrie")
@@ -129,6 +129,24 @@ func c01R6(h H) {
 		for j := i + 1; j < len(small); j++ {
 			for k := j + 1; k < len(small); k++ {
 				subsets = append(subsets, []siteKey{small[i], small[j], small[k]})
+			}
+		}
+	}
+	if theTier == "thorough" {
+		for i := range universe {
+			for j := i + 1; j < len(universe); j++ {
+				for k := j + 1; k < len(universe); k++ {
+					subsets = append(subsets, []siteKey{universe[i], universe[j], universe[k]})
+				}
+			}
+		}
+		for i := range small {
+			for j := i + 1; j < len(small); j++ {
+				for k := j + 1; k < len(small); k++ {
+					for l := k + 1; l < len(small); l++ {
+						subsets = append(subsets, []siteKey{small[i], small[j], small[k], small[l]})
+					}
+				}
 			}
 		}
 	}
